@@ -221,8 +221,9 @@ theorem inv_step (s s' : LS) (e : Ev) (hI : Inv s) (hs : s.step e = some s') : I
         split at hs
         · cases hs
           refine ⟨ref_of_set s _ hr rfl i _ (by exact hlt) rfl (fun r h => hr.2 r h), ?_⟩
-          refine once_of_set s _ h s.insts (fun _ => rfl) i it _ hit rfl (fun _ h => h) ?_
-          intro r; left; simp [sent, win, hpc]
+          refine once_of_set s _ h s.insts (fun _ => rfl) i it _ hit rfl ?_ ?_
+          · exact rs_upd_keep _ _ _ (by intro h; exact h)
+          · intro r; left; simp [sent, win, hpc]
         · split at hs
           · cases hs
             refine ⟨ref_of_set s _ hr rfl i _ (by exact hlt) rfl (fun r h => hr.2 r h), ?_⟩
@@ -231,13 +232,18 @@ theorem inv_step (s s' : LS) (e : Ev) (hI : Inv s) (hs : s.step e = some s') : I
           · split at hs
             · cases hs
               refine ⟨ref_of_set s _ hr rfl i _ (by exact hlt) rfl (fun r h => hr.2 r h), ?_⟩
-              refine once_of_set s _ h s.insts (fun _ => rfl) i it _ hit rfl ?_ ?_
-              · exact rs_upd_keep _ _ _ (by intro h; exact h)
-              · intro r; left; simp [sent, win, hpc]
-            · cases hs
-              refine ⟨ref_of_set s _ hr rfl i _ (by exact hlt) rfl (fun r h => hr.2 r h), ?_⟩
               refine once_of_set s _ h s.insts (fun _ => rfl) i it _ hit rfl (fun _ h => h) ?_
               intro r; left; simp [sent, win, hpc]
+            · split at hs
+              · cases hs
+                refine ⟨ref_of_set s _ hr rfl i _ (by exact hlt) rfl (fun r h => hr.2 r h), ?_⟩
+                refine once_of_set s _ h s.insts (fun _ => rfl) i it _ hit rfl ?_ ?_
+                · exact rs_upd_keep _ _ _ (by intro h; exact h)
+                · intro r; left; simp [sent, win, hpc]
+              · cases hs
+                refine ⟨ref_of_set s _ hr rfl i _ (by exact hlt) rfl (fun r h => hr.2 r h), ?_⟩
+                refine once_of_set s _ h s.insts (fun _ => rfl) i it _ hit rfl (fun _ h => h) ?_
+                intro r; left; simp [sent, win, hpc]
       · cases hs
     · cases hs
   | post i =>
